@@ -44,6 +44,9 @@ def make_samples(rng, info, ids, blocks):
             st = GI.rand_state_for(rng, info, include_irrelevant=rng.choice([0.0, 0.5, 1.0]))
             pool_states.append(st)
         ents.append([st, b])
+    if rng.random() < 0.15:
+        # an entry that lists no sample id at all (legal: it contributes no sample)
+        ents.append([GI.rand_state_for(rng, info, include_irrelevant=1.0), []])
     rng.shuffle(ents)
     return ents
 
@@ -54,7 +57,13 @@ def gen(rng, tier):
     for k in range(n):
         inst, info = GI.rand_instance(rng, allow_unset=False)
         nid = rng.randint(1, 8)
-        ids = rng.sample(range(0, 50), nid) if rng.random() < 0.7 else rng.sample(range(10 ** 6, 10 ** 6 + 100), nid)
+        r_ids = rng.random()
+        if r_ids < 0.6:
+            ids = rng.sample(range(0, 50), nid)
+        elif r_ids < 0.85:
+            ids = rng.sample(range(10 ** 6, 10 ** 6 + 100), nid)
+        else:
+            ids = rng.sample([0, 1, 2 ** 31, 2 ** 32, 2 ** 32 + 1, 2 ** 53 + 1, 2 ** 62, 2 ** 63 - 1, 2 ** 63, 2 ** 63 + 5], nid)
         if tier == "thorough" and nid <= 5 and k % 6 == 0:
             parts = list(partitions(ids))
         else:
